@@ -146,18 +146,23 @@ def r3_lag_and_close(ctx):
     R.fn(snd)
     ts = snd.calls_to(r"mpsc::Sender::<.*>::try_send$|mpsc::bounded::Sender::<.*>::try_send$")
     R.check(bool(ts), "C05.R3", "send:try_send", "delivery uses the bounded channel's try_send (never blocks the reader)", "SubscriptionSender::send no longer uses try_send", "%s:%d" % (snd.file, snd.lo))
-    lag = snd.calls_to(r"SubscriptionLagged::set_lagged$")
+    snd_all = F.nested(snd)   # the error mapping may live in a closure handed to map_err
+    lag = [c for x in snd_all for c in x.calls_to(r"SubscriptionLagged::set_lagged$")]
     R.check(bool(lag), "C05.R3", "send:set_lagged", "a full buffer marks the subscription as lagged", "a full buffer no longer marks the subscription as lagged", "%s:%d" % (snd.file, snd.lo))
     # set_lagged only on the Full arm: the block building TooSlow is reached through it
     built = {}
-    for bi, blk in enumerate(snd.blocks):
-        for st in blk["st"]:
-            if st["s"] == "assign" and st["rv"]["k"] == "agg" and st["rv"].get("adt", "").endswith("TrySubscriptionSendError"):
-                built[st["rv"]["variant"]] = bi
+    built_in = {}
+    for x_ in snd_all:
+        for bi, blk in enumerate(x_.blocks):
+            for st in blk["st"]:
+                if st["s"] == "assign" and st["rv"]["k"] == "agg" and st["rv"].get("adt", "").endswith("TrySubscriptionSendError"):
+                    built[st["rv"]["variant"]] = bi
+                    built_in[st["rv"]["variant"]] = x_
     R.check(set(built) == {"Closed", "TooSlow"}, "C05.R3", "send:error-kinds", "send reports Closed and TooSlow", "send builds error kinds %s" % sorted(built), "%s:%d" % (snd.file, snd.lo))
     for l in lag:
         if "TooSlow" in built:
-            R.check(snd.dominates(l.bb, built["TooSlow"]) and not ("Closed" in built and snd.dominates(l.bb, built["Closed"])), "C05.R3", "send:lag-on-full-only", "set_lagged is on the Full arm only", "set_lagged is not confined to the Full arm", where(l))
+            lb = l.body
+            R.check(built_in["TooSlow"] is lb and lb.dominates(l.bb, built["TooSlow"]) and not ("Closed" in built and built_in["Closed"] is lb and lb.dominates(l.bb, built["Closed"])), "C05.R3", "send:lag-on-full-only", "set_lagged is on the Full arm only", "set_lagged is not confined to the Full arm", where(l))
     # process_subscription_response: both failure arms return Some(sub_id)
     b = F.one(r"^jsonrpsee_core::client::async_client::helpers::process_subscription_response$")
     tr = ctx.tracer(follow_callers=False, follow_fields=False)
